@@ -31,7 +31,7 @@ NoState == [st |-> EmptyF, owner |-> EmptyF, queue |-> <<>>, res |-> EmptyF, exc
             retries |-> EmptyF]
 
 NoGhost == [holder |-> EmptyF, bodies |-> {}, epoch |-> EmptyF, accepted |-> {}, changes |-> EmptyF,
-            returned |-> EmptyF, raised |-> EmptyF, ckey |-> EmptyF, mode |-> "disabled",
+            returned |-> EmptyF, raised |-> EmptyF, ckey |-> EmptyF, mode |-> "disabled", reroute |-> TRUE,
             claimedby |-> EmptyF, stopped |-> {}]
 
 ObsInit == /\ RegInit
@@ -57,7 +57,7 @@ RegisterAll(ch, ids, r) ==
 
 NextGhost ==
   CASE Ev.op = "config" ->
-         [g EXCEPT !.ckey = Ev.cfg.ckey, !.mode = Ev.cfg.mode]
+         [g EXCEPT !.ckey = Ev.cfg.ckey, !.mode = Ev.cfg.mode, !.reroute = Ev.cfg.reroute]
     [] Registers ->
          [g EXCEPT !.changes = RegisterAll(@, A.invs, A.runner)]
     [] StatusOk ->
@@ -148,6 +148,21 @@ OneRunningPerKey ==
     \A i, j \in Invs(N) :
        (i # j /\ KeyOf(i) # "" /\ KeyOf(i) = KeyOf(j)) => ~(StOf(N, i) = "running" /\ StOf(N, j) = "running")
 
+\* a blocked invocation ends per the task option, the poll never fails, and only same-key
+\* PENDING / RUNNING invocations block
+PollNeverFails == Ev.op = "poll_end" => IsOk
+BlockedPerOption ==
+  /\ (StatusOk /\ A.to = "concurrency_controlled") => g.reroute
+  /\ (StatusOk /\ A.to = "concurrency_controlled_final") => ~g.reroute
+LookupMatchesKey ==
+  (Ev.op = "lookup" /\ IsOk /\ g.mode # "disabled") =>
+     \A j \in ToSet(Ev.r.vals) : (KeyOf(j) = A.val /\ StOf(o, j) \in ToSet(A.sts))
+BlockedHadPeer ==
+  (StatusOk /\ A.to \in {"concurrency_controlled", "concurrency_controlled_final"}) =>
+     \E j \in DOMAIN g.claimedby : j # A.inv /\ KeyOf(j) = KeyOf(A.inv) /\ KeyOf(j) # ""
+NoneLeftControlled ==
+  Ev.op = "quiescent" => \A i \in Invs(N) : StOf(N, i) # "concurrency_controlled"
+
 \* C10 (at the end, history flushed) and queue shadow = real queue
 HistoryIsChangeLog ==
   Ev.op = "final" =>
@@ -189,6 +204,11 @@ Checks ==
   /\ Check(tid, K, "NoValueBeforeFinal", NoValueBeforeFinal)
   /\ Check(tid, K, "ClientSeesStoredOutcome", ClientSeesStoredOutcome)
   /\ Check(tid, K, "OneRunningPerKey", OneRunningPerKey)
+  /\ Check(tid, K, "PollNeverFails", PollNeverFails)
+  /\ Check(tid, K, "BlockedPerOption", BlockedPerOption)
+  /\ Check(tid, K, "LookupMatchesKey", LookupMatchesKey)
+  /\ Check(tid, K, "BlockedHadPeer", BlockedHadPeer)
+  /\ Check(tid, K, "NoneLeftControlled", NoneLeftControlled)
   /\ Check(tid, K, "HistoryIsChangeLog", HistoryIsChangeLog)
   /\ Check(tid, K, "ChangeLogIsPath", ChangeLogIsPath)
   /\ Check(tid, K, "QueueIsRoutedMinusRetrieved", QueueIsRoutedMinusRetrieved)
